@@ -27,3 +27,10 @@ def nl_before(indices, k, o):
 def col_of(indices, k, o):
     # 1-based column of offset o on the line that starts after the k-th newline
     return o - (0 if k == 0 else indices[k - 1] + 1) + 1
+
+
+def is_marker(v):
+    # C17: the comment begins, after its comment leader and case-insensitively, with the marker 'nocl'
+    w = v.lower()
+    body = w[1:].strip() if (w.startswith("#") or w.startswith(";")) else (w[2:].strip() if (w.startswith("//") or w.startswith("/*")) else w)
+    return body.startswith("nocl")
